@@ -465,10 +465,41 @@ pub fn check_roundtrip(ctx: &mut Ctx, doc: &[u8]) {
         if x != y {
             return Err(format!("raw-number mode: {:?} denotes {} vs source {}", sr, y, x));
         }
+        // the same for values that are not the whole input (element of a typed Vec, later stream
+        // document), serialized after their input buffer has been overwritten and freed
+        for raw in [false, true] {
+            let mut w = b"[7.50,".to_vec();
+            w.extend_from_slice(doc);
+            w.extend_from_slice(b"]\n");
+            w.extend_from_slice(doc);
+            let (el, st): (Value, Value) = scribbled(&w, |buf| {
+                let de = Deserializer::from_slice(buf);
+                let mut de = if raw { de.use_rawnumber() } else { de };
+                let mut vs: Vec<Value> = de.deserialize().map_err(|e| format!("embedded parse rejected: {e}"))?;
+                let el = vs.pop().ok_or("empty Vec")?;
+                let st: Value = de.deserialize().map_err(|e| format!("second document rejected: {e}"))?;
+                Ok((el, st))
+            })?;
+            for (what, v) in [("element of Vec<Value>", &el), ("second document", &st)] {
+                let t = sonic_rs::to_string(v).map_err(|e| e.to_string())?;
+                let tref = refjson::parse_doc(t.as_bytes(), RMode::Decode).map_err(|r| format!("{what} (raw={raw}): text {:?} not well-formed: {:?}@{}", t, r.reason, r.at))?;
+                let (mut x, mut y) = (String::new(), String::new());
+                if raw || arb {
+                    lit_dump(&root, doc, sort, &mut x);
+                    lit_dump(&tref, t.as_bytes(), false, &mut y);
+                } else {
+                    norm_dump(&root, sort, &mut x);
+                    norm_dump(&tref, false, &mut y);
+                }
+                if x != y {
+                    return Err(format!("{what} (raw-number mode {raw}) serialized after its input was freed: {:?} denotes {} vs source {}", t, y, x));
+                }
+            }
+        }
         Ok(())
     });
     ctx.state();
-    ctx.calls(9);
+    ctx.calls(13);
     match r {
         Ok(Ok(())) => ctx.outcome("lossless+fixpoint"),
         Ok(Err(m)) => viol(ctx, "roundtrip", "parse->to_string", doc, m),
